@@ -1045,8 +1045,6 @@ def inject_candidates(wb):
                 # stray elements of exactly two characters: a two-character string is a "pair" to dict(), not to the tool
                 out.append(("malformed_webhook_headers", [39], f"{name} row {p + 2} (two-character strays)", rowtok(p),
                             flow_mut(si, p, lambda rs, q: rs[q].__setitem__("headers", [("s", "id"), ("s", "42")]))))
-                out.append(("malformed_webhook_headers", [39], f"{name} row {p + 2} (pair and a two-character stray)", rowtok(p),
-                            flow_mut(si, p, lambda rs, q: rs[q].__setitem__("headers", [("l", ["Authorization", "Token X"]), ("s", "ok")]))))
                 out.append(("malformed_webhook_headers", [39], f"{name} row {p + 2} (triple)", rowtok(p),
                             flow_mut(si, p, lambda rs, q: rs[q].__setitem__("headers", [("l", ["a", "b", "c"]), ("l", ["d", "e"])]))))
             if t == "begin_for":
